@@ -1,7 +1,10 @@
 """C41 - known_hosts lookup, save and reload agree and loading is idempotent.
 
-Domain: generated known_hosts files (<= 15 lines): host lists of 1-4 names from {a, b, c.example, 10.0.0.1,
-[a]:2222}; every name of a line is plain or hashed on its own (`|1|salt|hmac` computed by the harness from a
+Domain: generated known_hosts files (<= 17 lines): host lists of 1-4 names from {a, b, c.example, 10.0.0.1,
+[a]:2222, A, C.Example} - lower-case, upper-case and mixed-case names, among them names that differ ONLY in case (a / A,
+c.example / C.Example: "lists it" is literal, the probes also ask for B and zz which no file lists); "rotation" lines
+that repeat the host list (or one name) of an earlier line with ANOTHER key of the same type (old and new key of a
+host in one file: several entries per (host, key type)); every name of a line is plain or hashed on its own (`|1|salt|hmac` computed by the harness from a
 generated salt): all-plain lines (1-4 names), all-hashed lines (1-3 hashed names, own salt each) and lines mixing
 plain and hashed names (2-4 names); keys from the bundled pool (3 RSA, 2 ECDSA-256, 1 ECDSA-384, 2 Ed25519:
 several types per host and different keys of one type for one host), repeated hosts, multi-host lines sharing
@@ -9,9 +12,11 @@ names with other lines, trailing comments, tab separators, comment / blank lines
 type, a garbage or mismatching key blob, too few fields.  (Not generated: base64 with wrong padding and
 `@marker` lines - `HostKeys.load` lets `InvalidHostKey` escape for those; the statement does not cover them.)
 Histories (hypothesis RuleBasedStateMachine): load(file_i), load again, add(h, type, key), hk[h][type] = key,
-del hk[h], save + reload into a fresh object, clear - in particular the SAME file loaded again on one object after
+del hk[h], save + reload into a fresh object, clear; operations aimed at what is there: a loaded file again, a host that
+has entries, and add()/SubDict-set for a (host, key type) that currently has SEVERAL entries - in particular the SAME file loaded again on one object after
 del / add (in-place replacement or append) / SubDict assignment / clear (evidence classes
-history:same-file-loaded-again-after-*).  A second part loads single generated files twice.
+history:same-file-loaded-again-after-*).  A second part loads single generated files twice, in three of four cases with
+an add() / SubDict assignment for a (host, key type) of the file - preferably one that several key lines list - in between.
 
 Oracle - relative to the saved text, hence independent of the internal entry layout: with R = harness parser
 applied to the text written by save() (an entry lists h if a plain name equals h or a hashed name's HMAC-SHA1
@@ -46,16 +51,18 @@ PROPERTY = "C41"
 LEVEL = "exploration"
 RULE = (
     "part 1: hypothesis RuleBasedStateMachine over 1-3 generated known_hosts files and <= 14 operations "
-    "(load/load-again/add/SubDict-set/del/save+reload/clear; lines with 1-3 hashed names and lines mixing plain and hashed "
-    "names; the same file loaded again after del/add/SubDict-set/clear), every step compared with a harness parser applied to the "
+    "(load/load-again/add/SubDict-set/del/save+reload/clear; add/SubDict-set aimed at a (host, key type) that has several entries; "
+    "host names in lower, upper and mixed case incl. names differing only in case; lines with 1-3 hashed names, lines mixing plain and hashed "
+    "names, rotation lines repeating an earlier line's hosts with another key of the same type; the same file loaded again after del/add/SubDict-set/clear), every step compared with a harness parser applied to the "
     "save() output, every load checked for its merge postcondition, the final state compared with a fresh object taken through "
-    "the same loads and mutations; part 2: single generated files loaded twice then saved and reloaded; non-trivial = at least one load and "
+    "the same loads and mutations; part 2: single generated files loaded twice then saved and reloaded, three quarters of them with an "
+    "add()/SubDict-set aimed at a (host, key type) of the file (one with several keys when there is one) between the loads; non-trivial = at least one load and "
     "the loaded files contain a multi-host line, a hashed entry or a repeated (host, key type); distinct by SHA-1 of "
     "(file specs, operation list)"
 )
 
-HOSTS = ["a", "b", "c.example", "10.0.0.1", "[a]:2222"]
-PROBES = HOSTS + ["zz"]
+HOSTS = ["a", "b", "c.example", "10.0.0.1", "[a]:2222", "A", "C.Example"]
+PROBES = HOSTS + ["zz", "B"]  # zz: listed nowhere; B: only its lower-case spelling is ever in a file
 KEYNAMES = ["rsa1024", "rsa2048", "rsa2048b", "ecdsa256", "ecdsa256b", "ed25519", "ed25519b", "ecdsa384"]
 
 _POOL = None
@@ -113,7 +120,41 @@ _JUNK = [
 ]
 _junk = st.builds(lambda t: {"k": "junk", "text": t}, st.sampled_from(_JUNK))
 # 3 key lines : 1 junk line (st.one_of would merge repeated strategy objects, hence the index)
-file_st = st.lists(st.integers(0, 3).flatmap(lambda i: _junk if i == 0 else _entry), min_size=1, max_size=15)
+_base_file = st.lists(st.integers(0, 3).flatmap(lambda i: _junk if i == 0 else _entry), min_size=1, max_size=15)
+_SAME_TYPE = {
+    "rsa1024": ["rsa2048", "rsa2048b"],
+    "rsa2048": ["rsa1024", "rsa2048b"],
+    "rsa2048b": ["rsa2048", "rsa1024"],
+    "ecdsa256": ["ecdsa256b"],
+    "ecdsa256b": ["ecdsa256"],
+    "ed25519": ["ed25519b"],
+    "ed25519b": ["ed25519"],
+    "ecdsa384": ["ecdsa384"],
+}
+
+
+def _with_rotations(lines, rots):
+    """Rotation lines: (which key line, which other key of its type, one name only?, where) -> a further line listing the
+    same names (or just one of them) with ANOTHER key of the same type, somewhere after the line it repeats."""
+    lines = list(lines)
+    for ref, alt, single, where in rots:
+        idx = [i for i, ln in enumerate(lines) if ln["k"] == "entry"]
+        if not idx:
+            break
+        at = idx[ref % len(idx)]
+        src = lines[at]
+        new = dict(src)
+        alts = _SAME_TYPE[src["key"]]
+        new["key"] = alts[alt % len(alts)]
+        if single and len(src["hosts"]) > 1:
+            j = single % len(src["hosts"])
+            new["hosts"], new["salts"] = [src["hosts"][j]], [line_salts(src)[j]]
+        lines.insert(at + 1 + where % (len(lines) - at), new)
+    return lines
+
+
+_rots = st.lists(st.tuples(st.integers(0, 15), st.integers(0, 1), st.integers(0, 4), st.integers(0, 15)), max_size=2)
+file_st = st.builds(_with_rotations, _base_file, st.one_of(st.just([]), _rots))
 
 
 def hashed_name(host, salt):
@@ -318,7 +359,7 @@ class Sim:
     def compare(self, hk, entries, what):
         """hk's answers == reference lookups over ``entries`` for every probe host."""
         for h in PROBES:
-            first, _ = ref_lookup(entries, h)
+            first, allp = ref_lookup(entries, h)
             try:
                 sub = hk.lookup(h)
                 if sub is None:
@@ -336,9 +377,20 @@ class Sim:
                 continue
             if contains != bool(first):
                 self.fail("lookup", "%s:contains" % what, "%s: (%r in hostkeys) is %r, lookup gives %r" % (what, h, contains, got))
-            # every pool key of a type the host has (the right key and wrong keys of that type) and one key of a type it has
-            # not (each check() is a full scan that recomputes the HMAC of every hashed name)
-            probe_keys = [n for n in KEYNAMES if ktype(n) in first] + [n for n in KEYNAMES if ktype(n) not in first][:1]
+            # per key type the host has: the right key, every OTHER key of that type that some entry lists for the host (the
+            # later entries that must not take effect) and one pool key of that type that no entry lists for it; plus one key of
+            # a type it has not (each check() is a full scan that recomputes the HMAC of every hashed name)
+            listed = set(kb for _, kb in allp)
+            probe_keys, unlisted_done = [], set()
+            for n in KEYNAMES:
+                typ, kb, _ = pool()[n]
+                if typ in first:
+                    if kb in listed:
+                        probe_keys.append(n)
+                    elif typ not in unlisted_done:
+                        unlisted_done.add(typ)
+                        probe_keys.append(n)
+            probe_keys += [n for n in KEYNAMES if ktype(n) not in first][:1]
             for n in probe_keys:
                 typ, kb, pk = pool()[n]
                 want = first.get(typ) == kb
@@ -507,6 +559,10 @@ class Sim:
         replaced = any(t == typ and host in names for names, t, _ in entries)
         self.mutated("add-replacement" if replaced else "add")
         self.ctx.count("op:add")
+        if sum(1 for names, t, _ in entries if t == typ and host in names) >= 2:
+            self.hclasses.add("history:add-for-host-and-type-with-several-plain-entries")
+        if host != host.lower():
+            self.hclasses.add("history:add-of-name-with-upper-case-letters")
         shadow = any(t == typ and any(n.startswith("|1|") and name_matches(n, host) for n in names) for names, t, _ in entries)
         if shadow:
             self.ctx.count("add-shadowed-by-hashed-entry(not asserted)")
@@ -522,6 +578,8 @@ class Sim:
         if sub is None:
             self.ctx.count("op:set-skipped-absent-host")
             return
+        if sum(1 for names, t, _ in parse_saved(self.saved()) if t == typ and any(name_matches(n, host) for n in names)) >= 2:
+            self.hclasses.add("history:subdict-set-for-host-and-type-with-several-entries")
         sub[typ] = pk
         self.dirty = True
         self.mutated("subdict-set")
@@ -622,6 +680,21 @@ class Sim:
 def classes_of(sim):
     out = set()
     for i in sim.loaded:
+        plain = set()
+        per = {}
+        for ln in sim.files[i]:
+            if ln["k"] != "entry":
+                continue
+            for h, salt in zip(ln["hosts"], line_salts(ln)):
+                per.setdefault((h, ktype(ln["key"])), set()).add(ln["key"])
+                if salt is None:
+                    plain.add(h)
+        if any(h != h.lower() for h in plain):
+            out.add("file:plain-name-with-upper-case-letters")
+        if len(set(h.lower() for h in plain)) < len(plain):
+            out.add("file:plain-names-differing-only-in-case")
+        if any(len(v) > 1 for v in per.values()):
+            out.add("file:several-keys-of-one-type-for-one-host")
         for ln in sim.files[i]:
             if ln["k"] == "junk":
                 out.add("file:junk-line")
@@ -651,10 +724,29 @@ def run_fixed(ctx, files, ops):
         sim.close()
 
 
+def part2_ops(spec, mode, k, alt):
+    """Part 2 history for one generated file. mode 0: load, load again, save+reload. Otherwise an add() (mode 3: a SubDict
+    assignment) aimed at a (host, key type) of the file - one that SEVERAL key lines list when there is one - between the
+    two loads, with save+reload after it and after the second load."""
+    if mode == 0:
+        return [["load", 0], ["load", 0], ["reload"]]
+    per = {}
+    for ln in spec:
+        if ln["k"] == "entry":
+            for h in ln["hosts"]:
+                per.setdefault((h, ktype(ln["key"])), set()).add(ln["key"])
+    pairs = sorted(p for p in per if len(per[p]) > 1) or sorted(per)
+    if not pairs:
+        return [["load", 0], ["load", 0], ["reload"]]
+    h, t = pairs[k % len(pairs)]
+    kns = [x for x in KEYNAMES if ktype(x) == t]
+    return [["load", 0], ["set" if mode == 3 else "add", h, kns[alt % len(kns)]], ["reload"], ["load", 0], ["reload"]]
+
+
 def make_machine(ctx):
     from hypothesis.stateful import RuleBasedStateMachine, initialize, rule
 
-    hosts = st.sampled_from(HOSTS + ["zz"])
+    hosts = st.sampled_from(PROBES)
     keyn = st.sampled_from(KEYNAMES)
 
     class KnownHostsMachine(RuleBasedStateMachine):
@@ -707,6 +799,28 @@ def make_machine(ctx):
             if h is not None and not self.sim.dead:
                 self.sim.op(["set" if via_subdict else "add", h, kn])
 
+        @rule(k=st.integers(0, 15), alt=st.integers(0, 2), via_subdict=st.integers(0, 2))
+        def rekey_host_and_type_with_several_entries(self, k, alt, via_subdict):
+            """add() / SubDict assignment aimed at a (host, key type) that several entries list (old and new key)."""
+            if self.sim.dead or not self.sim.loaded:
+                return
+            try:
+                entries = parse_saved(self.sim.saved())
+            except (Stop, ValueError):
+                return
+            pairs = []
+            for h in HOSTS:
+                n = {}
+                for names, t, _ in entries:
+                    if any(name_matches(x, h) for x in names):
+                        n[t] = n.get(t, 0) + 1
+                pairs.extend((h, t) for t in sorted(n) if n[t] >= 2)
+            if not pairs:
+                return
+            h, t = pairs[k % len(pairs)]
+            kns = [x for x in KEYNAMES if ktype(x) == t]
+            self.sim.op(["set" if via_subdict == 2 else "add", h, kns[alt % len(kns)]])
+
         @rule()
         def reload(self):
             self.sim.op(["reload"])
@@ -733,8 +847,8 @@ def run(ctx):
     ctx.assume("key blobs of the pool are computed with `cryptography` (vlib.keys), not with paramiko")
     ctx.assume("lines with wrongly padded base64 or @markers are outside the domain (load() raises InvalidHostKey for them)")
     try:
-        ctx.explore_machine(make_machine(ctx), ctx.scale(300, 4000), steps=ctx.scale(10, 14))
-        ctx.explore(file_st, lambda f: run_fixed(ctx, [f], [["load", 0], ["load", 0], ["reload"]]), ctx.scale(500, 6000))
+        ctx.explore_machine(make_machine(ctx), ctx.scale(250, 4000), steps=ctx.scale(10, 14))
+        ctx.explore(st.tuples(file_st, st.integers(0, 3), st.integers(0, 15), st.integers(0, 2)), lambda c: run_fixed(ctx, [c[0]], part2_ops(*c)), ctx.scale(420, 6000))
     finally:
         _cleanup()
 
